@@ -52,9 +52,11 @@ Section PollProofs.
   Proof. intros s t [Hw Hc Ht Hi]. split; cbn; auto. Qed.
 
   Lemma PI_sig_step : forall s : pstate, PI s ->
-    match sig_step s with inl s' => PI s' | inr s' => PI s' end.
+    match sig_step s with inl s' => PI s' | inr (_, s') => PI s' end.
   Proof.
     intros s [Hw Hc Ht Hi]. unfold sig_step.
+    destruct (winch s && hup s).
+    { split; cbn; auto; discriminate. }
     assert (H2 : PI (if winch s
                      then push (mkP (io s) (events s) (pipe s) false false false (sig_closed s) (inq s)
                                     (hup s) (saved s) (cur s) (g_owed_wake s) (g_owed_winch s)
@@ -147,9 +149,9 @@ Section PollProofs.
     set (s2 := arrive_all s1 (r_sig r)).
     assert (H2 : PI s2) by now apply PI_arrive_all.
     assert (H3 : match (if a then sig_step s2 else inl s2) with
-                 | inl s3 => PI s3 | inr s3 => PI s3 end).
+                 | inl s3 => PI s3 | inr (_, s3) => PI s3 end).
     { destruct a; [now apply PI_sig_step|exact H2]. }
-    destruct (if a then sig_step s2 else inl s2) as [s3|sq]; [|exact H3].
+    destruct (if a then sig_step s2 else inl s2) as [s3|[eq sq]]; [|exact H3].
     set (s4 := arrive_all s3 (r_wk r)).
     assert (H4 : PI s4) by now apply PI_arrive_all.
     set (s5 := if b then wake_step s4 else s4).
@@ -222,17 +224,18 @@ Section PollProofs.
   Qed.
 
   Lemma Wk_sig_step : forall s : pstate, Wk s ->
-    match sig_step s with inl s' => Wk s' | inr s' => Wk s' end.
+    match sig_step s with inl s' => Wk s' | inr (_, s') => Wk s' end.
   Proof.
     intros s H. unfold sig_step.
     assert (H2 : forall s2 : pstate, pipe s2 = pipe s -> (forall e, In e (events s) -> In e (events s2)) -> Wk s2).
     { intros s2 Hp He. destruct H as [H|H]; [left; lia|right; auto]. }
+    destruct (winch s && hup s); [apply H2; cbn; auto|].
     destruct (termsig s), (winch s); apply H2; cbn; auto; intros e He; apply in_or_app; now left.
   Qed.
 
   Lemma sig_step_pipe : forall s : pstate,
-    match sig_step s with inl s' => pipe s' = pipe s | inr s' => pipe s' = pipe s end.
-  Proof. intro s. unfold sig_step. destruct (termsig s), (winch s); reflexivity. Qed.
+    match sig_step s with inl s' => pipe s' = pipe s | inr (_, s') => pipe s' = pipe s end.
+  Proof. intro s. unfold sig_step. destruct (winch s && hup s), (termsig s), (winch s); reflexivity. Qed.
 
   Lemma Wk_wake_step : forall s : pstate, Wk s -> Wk (wake_step s).
   Proof.
@@ -284,9 +287,9 @@ Section PollProofs.
     set (s2 := arrive_all s1 (r_sig r)).
     assert (H2 : Wk s2) by now apply Wk_arrive_all.
     assert (H3 : match (if a then sig_step s2 else inl s2) with
-                 | inl s3 => Wk s3 | inr s3 => Wk s3 end).
+                 | inl s3 => Wk s3 | inr (_, s3) => Wk s3 end).
     { destruct a; [now apply Wk_sig_step|exact H2]. }
-    destruct (if a then sig_step s2 else inl s2) as [s3|sq]; [|exact H3].
+    destruct (if a then sig_step s2 else inl s2) as [s3|[eq sq]]; [|exact H3].
     set (s4 := arrive_all s3 (r_wk r)).
     assert (H4 : Wk s4) by now apply Wk_arrive_all.
     set (s5 := if b then wake_step s4 else s4).
@@ -358,8 +361,8 @@ Section PollProofs.
     assert (H2 : 0 < pipe s2) by now apply pipe_arrive_all_pos.
     assert (H3 : match (if a then sig_step s2 else inl s2) with
                  | inl s3 => 0 < pipe s3 | inr _ => True end).
-    { destruct a; [|exact H2]. pose proof (sig_step_pipe s2). destruct (sig_step s2); auto. lia. }
-    destruct (if a then sig_step s2 else inl s2) as [s3|sq]; [|discriminate].
+    { destruct a; [|exact H2]. pose proof (sig_step_pipe s2). destruct (sig_step s2) as [?|[? ?]]; auto. lia. }
+    destruct (if a then sig_step s2 else inl s2) as [s3|[eq sq]]; [|discriminate].
     set (s4 := arrive_all s3 (r_wk r)).
     assert (H4 : 0 < pipe s4) by now apply pipe_arrive_all_pos.
     destruct (wake_step_pushes s4 H4) as (Hin & _).
@@ -423,7 +426,7 @@ Section PollProofs.
     { clear - Hws. unfold s2, arrive_all. generalize dependent s1.
       induction (r_sig r) as [|m ms IH]; intros s1 H; cbn; auto. apply IH.
       destruct m; cbn; try destruct (sig_closed s1); cbn; auto. }
-    unfold sig_step. rewrite H2. exact I.
+    unfold sig_step. rewrite H2. destruct (winch s2 && hup s2); exact I.
   Qed.
 
   (* ---------------------------------------------------------------- what poll never touches *)
@@ -451,8 +454,8 @@ Section PollProofs.
   Qed.
 
   Lemma Same_sig_step : forall s : pstate,
-    match sig_step s with inl s' => Same s s' | inr s' => Same s s' end.
-  Proof. intro s. unfold sig_step. destruct (termsig s), (winch s); repeat split. Qed.
+    match sig_step s with inl s' => Same s s' | inr (_, s') => Same s s' end.
+  Proof. intro s. unfold sig_step. destruct (winch s && hup s), (termsig s), (winch s); repeat split. Qed.
 
   Lemma Same_wake_step : forall s : pstate, Same s (wake_step s).
   Proof. intro s. unfold wake_step. destruct (Nat.min (pipe s) 1024); repeat split. Qed.
@@ -476,10 +479,10 @@ Section PollProofs.
     set (s2 := arrive_all s1 (r_sig r)).
     assert (H2 : Same s1 s2) by apply Same_arrive_all.
     assert (H3 : match (if a then sig_step s2 else inl s2) with
-                 | inl s3 => Same s1 s3 | inr s3 => Same s1 s3 end).
+                 | inl s3 => Same s1 s3 | inr (_, s3) => Same s1 s3 end).
     { destruct a; [|exact H2]. pose proof (Same_sig_step s2).
-      destruct (sig_step s2); eapply Same_trans; eauto. }
-    destruct (if a then sig_step s2 else inl s2) as [s3|sq]; [|exact H3].
+      destruct (sig_step s2) as [?|[? ?]]; eapply Same_trans; eauto. }
+    destruct (if a then sig_step s2 else inl s2) as [s3|[eq sq]]; [|exact H3].
     set (s4 := arrive_all s3 (r_wk r)).
     assert (H4 : Same s1 s4) by (eapply Same_trans; [exact H3|apply Same_arrive_all]).
     set (s5 := if b then wake_step s4 else s4).
@@ -612,7 +615,7 @@ Section PollProofs.
   Lemma reads_not_blocked : forall (s1 : pstate) r a b c x, reads s1 r a b c = inl x -> fst x <> PBlocked.
   Proof.
     intros s1 r a b c x. unfold reads.
-    destruct (if a then sig_step _ else inl _); [|intro E; inversion E; discriminate].
+    destruct (if a then sig_step _ else inl _) as [?|[? ?]]; [|intro E; inversion E; discriminate].
     destruct (if c then in_step _ _ else inl _); intro E; inversion E; discriminate.
   Qed.
 
@@ -679,12 +682,13 @@ Section PollProofs.
     set (s2 := arrive_all s1 (r_sig r)).
     assert (H2 : Ext s1 s2) by apply Ext_arrive_all.
     assert (H3 : match (if a then sig_step s2 else inl s2) with
-                 | inl s3 => Ext s1 s3 | inr s3 => Ext s1 s3 end).
+                 | inl s3 => Ext s1 s3 | inr (_, s3) => Ext s1 s3 end).
     { destruct a; [|exact H2]. unfold sig_step.
       assert (Hx : forall s3 : pstate, (events s3 = events s2 \/ events s3 = events s2 ++ [EvResize]) -> Ext s1 s3).
       { intros s3 [E|E]; (eapply Ext_trans; [exact H2|]); [exists []; now rewrite app_nil_r|now exists [EvResize]]. }
+      destruct (winch s2 && hup s2); [apply Hx; cbn; auto|].
       destruct (termsig s2), (winch s2); apply Hx; cbn; auto. }
-    destruct (if a then sig_step s2 else inl s2) as [s3|sq]; [|exact H3].
+    destruct (if a then sig_step s2 else inl s2) as [s3|[eq sq]]; [|exact H3].
     set (s4 := arrive_all s3 (r_wk r)).
     assert (H4 : Ext s1 s4) by (eapply Ext_trans; [exact H3|apply Ext_arrive_all]).
     set (s5 := if b then wake_step s4 else s4).
@@ -731,7 +735,7 @@ Section PollProofs.
     destruct (negb _ && nodelay && events_empty s); [intro E; inversion E; discriminate|].
     destruct (write_step _ _ _); [|intro E; inversion E; discriminate].
     unfold reads.
-    destruct (if sigpipe _ then sig_step _ else inl _); [|intro E; inversion E; discriminate].
+    destruct (if sigpipe _ then sig_step _ else inl _) as [?|[? ?]]; [|intro E; inversion E; discriminate].
     destruct (if (_ || hup _) then in_step _ _ else inl _); intro E; inversion E; discriminate.
   Qed.
 
@@ -884,7 +888,7 @@ Section PollProofs.
       revert Er. unfold round_body.
       destruct (negb _ && negb finite && events_empty s); [discriminate|].
       destruct (write_step _ _ _); [|discriminate]. unfold reads.
-      destruct (if sigpipe _ then sig_step _ else inl _); [|discriminate].
+      destruct (if sigpipe _ then sig_step _ else inl _) as [?|[? ?]]; [|discriminate].
       destruct (if (_ || hup _) then in_step _ _ else inl _); discriminate.
     - destruct (round_body_len s r (negb finite) s' sp HQ Er) as [Hle Hlt].
       pose proof (round_body_events s r (negb finite) s' sp Er He) as He'.
@@ -916,7 +920,7 @@ Section PollProofs.
       + cbn. intro Hx. subst res1. revert Er. unfold round_body.
         destruct (negb _ && negb finite && events_empty s); [discriminate|].
         destruct (write_step _ _ _); [|discriminate]. unfold reads.
-        destruct (if sigpipe _ then sig_step _ else inl _); [|discriminate].
+        destruct (if sigpipe _ then sig_step _ else inl _) as [?|[? ?]]; [|discriminate].
         destruct (if (_ || hup _) then in_step _ _ else inl _); discriminate.
       + pose proof (round_queues_wake s r (negb finite) s' sp (pipe_arrive_all_pos _ _ Hp) Er) as Hin.
         destruct (round_body_len s r (negb finite) s' sp HQ Er) as [Hle _].
